@@ -600,3 +600,182 @@ def gen_twin(quick_n, thorough_n):
             prof = ["cache", "default", "cache", "batch"][i % 4]
             yield twin_case(universe, rnd, prof, rnd.randrange(5, 40))
     return gen
+
+
+# ----------------------------------------------------------------------------- container operations (opcodes 50..86)
+class ContGen(WorldGen):
+    """world script generator extended with EntityBuilder / EntityBuilderClone / BuiltEntityClone /
+    ColumnBatchBuilder / CommandBuffer operations"""
+
+    def __init__(self, rnd, profile="default", focus="all"):
+        super().__init__(rnd, profile)
+        self.focus = focus
+        self.eb = [set() for _ in range(4)]       # types currently in each EntityBuilder
+        self.ebc = [set() for _ in range(4)]
+        self.built = [None] * 4
+        self.batch = [None] * 4                   # dict(types, target, fill{t:n})
+        self.cmd = [dict(spawns=0, n=0) for _ in range(2)]
+
+    def cont_step(self):
+        r = self.r
+        kinds = {"all": ["eb", "ebc", "batch", "cmd"], "builder": ["eb", "ebc", "ebc"], "batch": ["batch"],
+                 "cmd": ["cmd"]}[self.focus]
+        k = r.choice(kinds)
+        w = r.randrange(2) if r.random() < 0.3 else 0
+        if self.poisoned[w]:
+            w = 1 - w
+        if k == "eb":
+            s = r.randrange(4)
+            c = r.random()
+            if c < 0.5:
+                # repeated adds of a type replace the value; layouts force growth and re-alignment
+                t = r.choice(list(self.eb[s])) if self.eb[s] and r.random() < 0.3 else r.randrange(NT)
+                self.emit(50, s, t, self.val()); self.eb[s].add(t)
+            elif c < 0.6:
+                self.emit(52, s); self.eb[s] = set()
+            elif c < 0.75 and not self.poisoned[w]:
+                self.emit(53, s, w); self.materialise(w); self.add(w, True, self.eb[s]); self.eb[s] = set()
+            elif c < 0.82 and not self.poisoned[w]:
+                h, i = self.href(w, r.random() < 0.8)
+                self.emit(54, s, w, h); self.materialise(w)
+                if i is not None and self.table[i]["alive"] and self.table[i]["world"] == w:
+                    self.table[i]["types"] |= self.eb[s]
+                self.eb[s] = set()
+            elif c < 0.92:
+                self.emit(55, s)
+            elif c < 0.96:
+                self.emit(56, s); self.eb[s] = set()
+            else:
+                self.emit(57, s); self.eb[s] = set()
+        elif k == "ebc":
+            s = r.randrange(4)
+            c = r.random()
+            if c < 0.4:
+                t = r.choice(list(self.ebc[s])) if self.ebc[s] and r.random() < 0.3 else r.randrange(NT)
+                self.emit(60, s, t, self.val()); self.ebc[s].add(t)
+            elif c < 0.46:
+                self.emit(61, s); self.ebc[s] = set()
+            elif c < 0.54:
+                s2 = r.randrange(4)
+                self.emit(62, s, s2); self.ebc[s2] = set(self.ebc[s])
+            elif c < 0.66:
+                ks = r.randrange(4)
+                self.emit(63, s, ks); self.built[ks] = set(self.ebc[s]); self.ebc[s] = set()
+            elif c < 0.78:
+                ks = r.randrange(4)
+                if not self.poisoned[w]:
+                    self.emit(64, ks, w)
+                    if self.built[ks] is not None:
+                        self.materialise(w); self.add(w, True, self.built[ks])
+                    else:
+                        self.add(w, False)
+            elif c < 0.86:
+                ks = r.randrange(4)
+                self.emit(65, ks, s)
+                if self.built[ks] is not None:
+                    self.ebc[s] = set(self.built[ks]); self.built[ks] = None
+            elif c < 0.94:
+                self.emit(66, s)
+            elif c < 0.97:
+                ks, ks2 = r.randrange(4), r.randrange(4)
+                self.emit(67, ks, ks2)
+                if self.built[ks] is not None:
+                    self.built[ks2] = set(self.built[ks])
+            else:
+                ks = r.randrange(4)
+                self.emit(68, ks); self.built[ks] = None
+        elif k == "batch":
+            s = r.randrange(4)
+            b = self.batch[s]
+            c = r.random()
+            if b is None or c < 0.12:
+                ts = self.pick_types(r.choice([0, 1, 2, 2, 3]))
+                declared = list(ts)
+                if ts and r.random() < 0.3:
+                    declared.append(r.choice(ts))          # duplicates declared
+                    r.shuffle(declared)
+                n = r.choice([0, 1, 2, 3, 5])
+                self.emit(70, s, len(declared), declared, n)
+                self.batch[s] = dict(types=set(ts), target=n, fill={t: 0 for t in ts})
+            elif c < 0.7:
+                # push through a fresh writer: usually within the remaining room, sometimes beyond,
+                # sometimes for a type the batch does not have
+                if b["types"] and r.random() < 0.92:
+                    t = r.choice(sorted(b["types"]))
+                    room = b["target"] - b["fill"][t]
+                    m = r.choice([room, room, max(room - 1, 0), 1, room + 1, 0]) if room else r.choice([0, 1])
+                    self.emit(71, s, t, m, [self.val() for _ in range(m)])
+                    b["fill"][t] = min(b["target"], b["fill"][t] + m)
+                else:
+                    t = r.randrange(NT)
+                    m = 0 if t in b["types"] else r.choice([0, 1])
+                    self.emit(71, s, t, m, [self.val() for _ in range(m)])
+            elif c < 0.92 and not self.poisoned[w]:
+                self.emit(72, s, w)
+                complete = all(v == b["target"] for v in b["fill"].values())
+                if complete:
+                    self.materialise(w)
+                self.add(w, complete, b["types"], n=b["target"])
+                self.batch[s] = None
+            else:
+                self.emit(74, s); self.batch[s] = None
+        else:
+            cb = r.randrange(2)
+            c = r.random()
+            st = self.cmd[cb]
+            if c < 0.3:
+                enc, ts, dup = self.bundle(allow_dup=r.random() < 0.03)
+                self.emit(80, cb, enc); st["spawns"] += 1; st["n"] += 1; st["dup"] = st.get("dup", False) or dup
+            elif c < 0.5:
+                h, i = self.href(w, r.random() < 0.85)
+                enc, ts, dup = self.bundle()
+                self.emit(81, cb, h, enc); st["n"] += 1
+            elif c < 0.62:
+                h, i = self.href(w, r.random() < 0.85)
+                ts = r.choice([t for t in TUPLES if len(t) <= 2 and len(set(t)) == len(t)])
+                self.emit(82, cb, h, len(ts), list(ts)); st["n"] += 1
+            elif c < 0.72:
+                h, i = self.href(w, r.random() < 0.85)
+                self.emit(83, cb, h); st["n"] += 1
+                if i is not None:
+                    self.table[i]["alive"] = False          # approximately: dies when the buffer runs
+            elif c < 0.9:
+                if not self.poisoned[w]:
+                    self.emit(84, cb, w)
+                    self.materialise(w)
+                    if st.get("dup"):
+                        self.poisoned[w] = True
+                    self.add(w, True, (), n=st["spawns"])
+                    self.cmd[cb] = dict(spawns=0, n=0)
+            elif c < 0.96:
+                self.emit(85, cb); self.cmd[cb] = dict(spawns=0, n=0)
+            else:
+                self.emit(86, cb); self.cmd[cb] = dict(spawns=0, n=0)
+
+
+def cont_case(universe, rnd, focus, nops):
+    g = ContGen(rnd, "default", focus)
+    for i in range(nops):
+        if rnd.random() < 0.7:
+            g.cont_step()
+        else:
+            g.step()
+        if rnd.random() < 0.25:
+            g.probe(extra=1)
+    g.probe(extra=3)
+    if rnd.random() < 0.5:
+        g.emit(22)                 # drop the containers before the worlds
+        g.emit(21, 0, 21, 1)
+    else:
+        g.emit(21, 0, 21, 1)       # worlds first; containers are torn down at the end of the case
+        g.emit(22)
+    return [1] + universe + g.out
+
+
+def gen_cont(focus, quick_n, thorough_n):
+    def gen(tier, seed, universe):
+        rnd = random.Random(seed)
+        for i in range(quick_n if tier == "quick" else thorough_n):
+            f = focus[i % len(focus)]
+            yield cont_case(universe, rnd, f, rnd.randrange(6, 60))
+    return gen
